@@ -160,8 +160,6 @@ class Problem:
         rec["n"] = n
         if not var.boolean:
             raise Unsupported("non-boolean MIP variable")
-        if n > MAX_VARS:
-            raise Cut("mip-vars>%d" % MAX_VARS)
         # concrete constraint rows
         rows = []
         for c in self.constraints:
@@ -172,6 +170,12 @@ class Problem:
                 raise Unsupported("symbolic constraint matrix")
             rows.append((real_np.array(M, dtype=float), c.op, float(c.rhs)))
         rec["rows"] = [(M.tolist(), op, rhs) for M, op, rhs in rows]
+        rec["objective"] = [self.objective.expr.M[0, j] for j in range(n)]
+        rec["sense"] = self.objective.sense
+        if STATE.capture_only:
+            raise CaptureDone()
+        if n > MAX_VARS:
+            raise Cut("mip-vars>%d" % MAX_VARS)
         # feasible 0/1 points
         pts = []
         if n == 0:
@@ -185,10 +189,6 @@ class Problem:
                 ok &= _sat_row(vals, op, rhs).all(axis=1)
             pts = [tuple(int(v) for v in p) for p in allp[ok]]
         rec["feasible_points"] = len(pts)
-        rec["objective"] = [self.objective.expr.M[0, j] for j in range(n)]
-        rec["sense"] = self.objective.sense
-        if STATE.capture_only:
-            raise CaptureDone()
         if not pts:
             var.value = None
             return None
